@@ -474,12 +474,52 @@ func (c *normCtx) tryExtract(value ast.Value, expected Input) (ast.Value, bool) 
 		return value, false
 	}
 	name := c.nextName()
-	c.synthArgs[name] = coerced
+	c.synthArgs[name] = literalToInput(value)
 	c.newVarDefs = append(c.newVarDefs, ast.NewVariableDefinition(&ast.VariableDefinition{
 		Variable: ast.NewVariable(&ast.Variable{Name: ast.NewName(&ast.Name{Value: name})}),
 		Type:     typeASTFromGoType(expected),
 	}))
 	return ast.NewVariable(&ast.Variable{Name: ast.NewName(&ast.Name{Value: name})}), true
+}
+
+// literalToInput renders a variable-free literal the way a client would send it as a variable value
+// (enum values by name, numbers as numbers, objects as maps). ExecutePlan coerces SynthArgs through
+// getVariableValues like any other variable, so they must be in input form, not in the internal form
+// valueFromAST produces (an enum's internal value is not a valid variable value).
+func literalToInput(value ast.Value) interface{} {
+	switch v := value.(type) {
+	case *ast.IntValue:
+		if n, err := strconv.Atoi(v.Value); err == nil {
+			return n
+		}
+		return v.Value
+	case *ast.FloatValue:
+		if f, err := strconv.ParseFloat(v.Value, 64); err == nil {
+			return f
+		}
+		return v.Value
+	case *ast.StringValue:
+		return v.Value
+	case *ast.BooleanValue:
+		return v.Value
+	case *ast.EnumValue:
+		return v.Value
+	case *ast.ListValue:
+		out := make([]interface{}, 0, len(v.Values))
+		for _, item := range v.Values {
+			out = append(out, literalToInput(item))
+		}
+		return out
+	case *ast.ObjectValue:
+		out := make(map[string]interface{}, len(v.Fields))
+		for _, f := range v.Fields {
+			if f != nil && f.Name != nil {
+				out[f.Name.Value] = literalToInput(f.Value)
+			}
+		}
+		return out
+	}
+	return nil
 }
 
 // typeASTFromGoType maps a runtime Type to its AST form so we can
